@@ -172,6 +172,7 @@ func (m *Machine) runInits(l *Loaded) (err error) {
 	m.env = m.env[:0]
 	m.dom = map[int32]*dom256{}
 	m.origin = map[*Term][]*Term{}
+	m.originRev = map[*Term]*Term{}
 	// only the packages every harness needs; canonicalizer's initialiser runs when the first
 	// canonicalizer harness is explored (ensureInit), so that url-package harnesses see exactly the
 	// initial state their native replay binary (which cannot import canonicalizer) sees
